@@ -244,13 +244,41 @@ func (lsys *LinkSystem) Store(lnkCtx LinkContext, lp datamodel.LinkPrototype, n 
 	if err != nil {
 		return nil, err
 	}
-	tee := io.MultiWriter(writer, hasher)
+	// The encoder is expected to return any error its writer gives it, but not every codec does
+	// (some serializers carry on after a failed write and report success):
+	// so we remember the first failure of the storage writer ourselves, and refuse to commit after one.
+	storageWriter := &latchingWriter{w: writer}
+	tee := io.MultiWriter(storageWriter, hasher)
 	err = encoder(n, tee)
 	if err != nil {
 		return nil, err
 	}
+	if err := storageWriter.err; err != nil {
+		return nil, err
+	}
 	lnk := lp.BuildLink(hasher.Sum(nil))
 	return lnk, commitFn(lnk)
+}
+
+// latchingWriter passes writes through to w and remembers the first error (or short write) that w reports.
+// After that, it refuses all further writes with that same error.
+type latchingWriter struct {
+	w   io.Writer
+	err error
+}
+
+func (lw *latchingWriter) Write(p []byte) (int, error) {
+	if lw.err != nil {
+		return 0, lw.err
+	}
+	n, err := lw.w.Write(p)
+	if err == nil && n < len(p) {
+		err = io.ErrShortWrite
+	}
+	if err != nil {
+		lw.err = err
+	}
+	return n, err
 }
 
 func (lsys *LinkSystem) MustStore(lnkCtx LinkContext, lp datamodel.LinkPrototype, n datamodel.Node) datamodel.Link {
